@@ -1,0 +1,50 @@
+// SPDX-FileCopyrightText: 2026 The Pion community <https://pion.ly>
+// SPDX-License-Identifier: MIT
+
+//go:build verif
+
+// Contracts (comment-only) for property C06: candidate and pair bookkeeping
+// stays consistent; Restart leaves no residue. (Also carries C03's obligation
+// that re-selection on supersession only follows the superseded selected pair.)
+
+package ice
+
+//@ func newCandidatePair
+//@   props C06
+//@   modifies nothing
+//@   ensures fresh-waiting-pair: result != nil && fresh(result) && result.Local == local && result.Remote == remote && result.iceRoleControlling == controlling && result.state == CandidatePairStateWaiting
+//@   ensures zeroed: result.id == 0 && !result.nominated && !result.nominateOnBindingSuccess && !result.hasPriorityOverride && result.bindingRequestCount == 0
+
+//@ func (*Agent).addPair
+//@   props C06
+//@   requires C06 id-space-not-exhausted: a.nextPairID < 18446744073709551615
+//@   requires a.pairsByID != nil
+//@   modifies a.nextPairID, a.checklist, a.pairsByID[*], fam:E_*ice.CandidatePair
+//@   ensures fresh-strictly-increasing-id: a.nextPairID == old(a.nextPairID) + 1 && result.id == a.nextPairID
+//@   ensures new-pair: result != nil && fresh(result) && result.Local == local && result.Remote == remote && result.state == CandidatePairStateWaiting
+//@   ensures appended-last: len(a.checklist) == old(len(a.checklist)) + 1 && a.checklist[len(a.checklist) - 1] == result
+//@   ensures indexed-by-id: has(a.pairsByID, result.id) && a.pairsByID[result.id] == result
+//@   ensures index-grows-by-at-most-one: len(a.pairsByID) <= old(len(a.pairsByID)) + 1
+
+// The only writer of the pair id counter is addPair.
+//@ enumerate C06 stores ice.Agent.nextPairID in (*Agent).addPair
+
+//@ func replacePairRemote
+//@   props C06 C03
+//@   modifies nothing
+//@   ensures fresh-replacement: result != nil && fresh(result) && result != pair
+//@   ensures same-identity: result.id == pair.id && result.Local == pair.Local && result.Remote == remote && result.iceRoleControlling == pair.iceRoleControlling
+//@   ensures same-progress: result.state == pair.state && result.nominated == pair.nominated && result.nominateOnBindingSuccess == pair.nominateOnBindingSuccess && result.bindingRequestCount == pair.bindingRequestCount
+//@   ensures same-counters: result.packetsSent == pair.packetsSent && result.packetsReceived == pair.packetsReceived && result.bytesSent == pair.bytesSent && result.bytesReceived == pair.bytesReceived && result.requestsReceived == pair.requestsReceived && result.requestsSent == pair.requestsSent && result.responsesReceived == pair.responsesReceived && result.responsesSent == pair.responsesSent
+//@   ensures same-rtt: result.currentRoundTripTime == pair.currentRoundTripTime && result.totalRoundTripTime == pair.totalRoundTripTime
+//@   ensures same-packet-times: result.lastPacketSentAt == pair.lastPacketSentAt && result.lastPacketReceivedAt == pair.lastPacketReceivedAt
+//@   ensures old-pair-untouched: pair.state == old(pair.state) && pair.id == old(pair.id)
+
+//@ func (*Agent).replaceRemoteInPairs
+//@   props C06 C03
+//@   requires C03 selected-pair-is-valid: istype(a.selectedPair, *CandidatePair) && a.selectedPair.payload != nil ==> cast(a.selectedPair.payload, *CandidatePair).state == CandidatePairStateSucceeded || a.userBindingRequestHandler != nil
+//@   loop 1 invariant C03 selected-pair-stays-valid: istype(a.selectedPair, *CandidatePair) && a.selectedPair.payload != nil ==> cast(a.selectedPair.payload, *CandidatePair).state == CandidatePairStateSucceeded || a.userBindingRequestHandler != nil
+//@   loop 1 invariant C06 list-header-stable: a.checklist == old(a.checklist) && a.pairsByID == old(a.pairsByID)
+//@   site call setSelectedPair#1 assert C03 C06 reselects-only-the-superseded-selected-pair: a.getSelectedPair() == pair && arg1 == replacement && pair.Remote == oldRemote
+//@   site call replacePairRemote#1 assert C06 replaces-only-pairs-of-the-old-remote: arg0 == pair && pair.Remote == oldRemote && arg1 == newRemote
+//@   site call setPriorityOverride#1 assert C06 keeps-its-priority: arg0 == replacement && arg1 == oldPriority
